@@ -1,6 +1,6 @@
 (* Lemmas_Control.v — laws of the control-flow combinators (Control.v), for arbitrary condition and
    body computations. *)
-From PE2 Require Import Control.
+From PE2 Require Import Control Eval.
 From Coq Require Import ZifyBool.
 Local Open Scope Z_scope.
 
@@ -222,3 +222,14 @@ Proof.
   intros Hs n. unfold for_continues, for_count in *. subst n.
   destruct (stepv <? 0) eqn:E; split; intros; nia.
 Qed.
+
+(* the evaluator's loops are these combinators (the level of the record is its fuel) *)
+Lemma ev_fuel_at ped repl lim f : ev_fuel (evs_at ped repl lim f) = f.
+Proof. induction f as [|f IH]; cbn; [reflexivity|]. rewrite IH. reflexivity. Qed.
+
+Lemma eval_while ped repl lim f t cond body c :
+  eval ped repl lim (S f) (NWhile t cond body) c = while_loop lim f t c (eval ped repl lim f cond c) (run_block ped repl lim f body c).
+Proof. unfold eval, run_block. cbn [evs_at evs_step ev_eval eval_body]. rewrite ev_fuel_at. reflexivity. Qed.
+Lemma eval_repeat ped repl lim f t cond body c :
+  eval ped repl lim (S f) (NRepeat t cond body) c = repeat_loop lim f t c (eval ped repl lim f cond c) (run_block ped repl lim f body c).
+Proof. unfold eval, run_block. cbn [evs_at evs_step ev_eval eval_body]. rewrite ev_fuel_at. reflexivity. Qed.
